@@ -1823,6 +1823,8 @@ func runOne(scenario string, rng *rand.Rand) ([]viol, runStats) {
 		return runEntryVar(rng)
 	case "entry-set":
 		return runEntrySet(rng)
+	case "disc":
+		return runDisc(rng)
 	}
 	panic("unknown scenario " + scenario)
 }
@@ -1884,7 +1886,7 @@ func child(c *vf.Ctx) {
 var scenarios = []struct {
 	name  string
 	share int
-}{{"entry-var", 8}, {"entry-set", 4}, {"dv", 12}, {"dset", 12}, {"subtract", 8}, {"counter", 9}, {"ss-seq", 9}, {"ss-owner", 9}, {"ss-addw", 8}, {"ss-dl", 8}, {"wg", 9}, {"evict", 9}, {"switch", 7}}
+}{{"entry-var", 8}, {"entry-set", 4}, {"dv", 12}, {"dset", 12}, {"subtract", 8}, {"counter", 9}, {"ss-seq", 9}, {"ss-owner", 9}, {"ss-addw", 8}, {"ss-dl", 8}, {"wg", 9}, {"evict", 9}, {"switch", 7}, {"disc", 8}}
 
 func run(c *vf.Ctx) {
 	if c.Replay != "" {
@@ -1903,19 +1905,19 @@ func run(c *vf.Ctx) {
 		res := c.RunChild(vf.ChildOpts{Name: "runs", Args: []string{r.Scenario, strconv.Itoa(r.Run), "1", "300"}, Race: r.Race, Timeout: 5 * time.Minute, Seed: c.Seed})
 		reportRaces(c, res.Races, job{Scenario: r.Scenario, Start: r.Run, Race: r.Race})
 		if res.Deadlock {
-			fp, what := classifyDeadlock(r.Scenario, gdump.Parse(res.Stderr))
+			fp, what := classifyDeadlock(scenarioOfMark(res.LastMark, r.Scenario), gdump.Parse(res.Stderr))
 			c.Violation(fp, what, r)
 		}
 		return
 	}
-	c.SetRule("one evaluation = one run of one scenario (DerivedVariable1-4/InheritFrom/DeriveValueFrom, DerivedSet, SubtractReactive, Counter, SortedSet x4, WaitGroup, EvictionState) on fresh objects: seeded writer goroutines on different inputs plus structural changes (inherit/unsubscribe source, Monitor, add/delete/re-add element, Replace on a source, weight updates of present and removed elements), then the defining function is recomputed from the inputs at quiescence (right after construction/attachment with inputs that are already zero / non-zero, after every round of concurrent writes, in sequential scenarios after every step; Counter conditions come from a seeded family incl. conditions that hold for the zero value; writer streams include the zero value / the empty set; InheritFrom, DeriveValueFrom and new DerivedVariables are attached to inputs while these are written and stay checked); entry-var / entry-set: inputs (plain, transforming, derived and counter carriers, Events, reactive Sets) that already have every kind of derived value attached are written through every exported write entry point (Init, Set, Compute, DefaultTo, ToggleValue and its reset, InheritFrom, DeriveValueFrom, Trigger; Add, AddAll, Delete, DeleteAll, Apply, Compute, Replace, Clear, Decode), sequentially with the oracle after every step and in concurrent rounds; the sequential histories are chains three levels deep whose middle nodes are written directly as well (mostly writes without effect) and whose every level is compared with the defining function of the current values of its parents; they include writes that fail or abort part-way (Decode of a payload cut at every position, Compute with a panicking function, teardown of an inheritance from inside the update being delivered); the writer mixes of dv, counter and the SortedSet weights use the same entry points; runs are distinct by construction (run seed); distinct_nontrivial counts runs in which at least two writer goroutines' activity spans overlapped by logical ticks (sequential scenarios: at least 3 effective steps)")
+	c.SetRule("one evaluation = one run of one scenario (DerivedVariable1-4/InheritFrom/DeriveValueFrom, DerivedSet, SubtractReactive, Counter, SortedSet x4, WaitGroup, EvictionState) on fresh objects: seeded writer goroutines on different inputs plus structural changes (inherit/unsubscribe source, Monitor, add/delete/re-add element, Replace on a source, weight updates of present and removed elements), then the defining function is recomputed from the inputs at quiescence (right after construction/attachment with inputs that are already zero / non-zero, after every round of concurrent writes, in sequential scenarios after every step; Counter conditions come from a seeded family incl. conditions that hold for the zero value; writer streams include the zero value / the empty set; InheritFrom, DeriveValueFrom and new DerivedVariables are attached to inputs while these are written and stay checked); entry-var / entry-set: inputs (plain, transforming, derived and counter carriers, Events, reactive Sets) that already have every kind of derived value attached are written through every exported write entry point (Init, Set, Compute, DefaultTo, ToggleValue and its reset, InheritFrom, DeriveValueFrom, Trigger; Add, AddAll, Delete, DeleteAll, Apply, Compute, Replace, Clear, Decode), sequentially with the oracle after every step and in concurrent rounds; the sequential histories are chains three levels deep whose middle nodes are written directly as well (mostly writes without effect) and whose every level is compared with the defining function of the current values of its parents; they include writes that fail or abort part-way (Decode of a payload cut at every position, Compute with a panicking function, teardown of an inheritance from inside the update being delivered); the writer mixes of dv, counter and the SortedSet weights use the same entry points; runs are distinct by construction (run seed); scenario disc: sequential histories in which the caller keeps every returned / delivered slice and set with a copy, re-checks and then overwrites it, re-uses its arguments, and in which user code (weight functions, Less, factories, compute functions, conditions, handlers, subscribers) re-enters the construct or panics (the pairs that return on the unchanged tree), oracle after every step; distinct_nontrivial counts runs in which at least two writer goroutines' activity spans overlapped by logical ticks (sequential scenarios: at least 3 effective steps)")
 	total := c.Pick(30000, 600000)
 	chunk := c.Pick(600, 6000)
 	var jobs []job
 	for _, s := range scenarios {
 		n := total * s.share / 100
 		nPlain := n * 2 / 3
-		if s.name == "ss-seq" {
+		if s.name == "ss-seq" || s.name == "disc" {
 			nPlain = n // single goroutine: nothing for the race detector
 		}
 		for st := 0; st < nPlain; st += chunk {
@@ -1977,6 +1979,11 @@ func run(c *vf.Ctx) {
 	c.Require("entry_var_teardowns_inside_update", total/400)
 	c.Require("entry_failed_writes", total/400)
 	c.Require("writes_beyond_set_compute", total/20)
+	for _, s := range scenarios {
+		if s.name == "disc" {
+			discRequire(func(k string, n int) { c.Require(k, n) }, c.Note, total*s.share/100)
+		}
+	}
 }
 
 func main() { vf.Main("C14", "exploration", run, child) }
